@@ -105,8 +105,9 @@ inline bytes gen_plain(size_t n, uint64_t pseed, int kind = 0) {
   return p;
 }
 inline bytes gen_seed(vh::Rng &r) {
-  static const int lens[] = {0, 1, 2, 15, 16, 20, 55, 56, 63, 64, 65, 119, 120, 128, 200, 254, 255};
-  size_t l = r.chance(50) ? (size_t)lens[r.below(sizeof lens / sizeof lens[0])] : (size_t)r.below(256);
+  // the seed is a C string of ANY length (the CLI passes a 256-byte unterminated buffer, so longer ones occur too)
+  static const int lens[] = {0, 1, 2, 15, 16, 20, 55, 56, 63, 64, 65, 119, 120, 128, 200, 254, 255, 256, 257, 300, 511, 512, 513, 1000};
+  size_t l = r.chance(50) ? (size_t)lens[r.below(sizeof lens / sizeof lens[0])] : (size_t)r.below(r.chance(80) ? 256 : 700);
   bytes s = r.bytes_(l);
   for (auto &c : s)
     if (c == 0) c = 0x80 | (uint8_t)r.below(128); // strlen() ends the seed at the first NUL
